@@ -20,6 +20,13 @@ import (
 func TestMain(m *testing.M) {
 	setupLogCapture()
 	log.SetLevel(zapcore.FatalLevel)
+	baseLevel = zapcore.FatalLevel
+	if lv := os.Getenv("VERIF_LOGLEVEL"); lv != "" { // debugging aid
+		if l, err := zapcore.ParseLevel(lv); err == nil {
+			log.SetLevel(l)
+			baseLevel = l
+		}
+	}
 	util.InitMilvusPkgParam()
 	deadlock.Opts.Disable = true // see hreader/main_test.go: goid returns a constant under Go 1.23
 	// what CDCServer.Run does with the configured retry settings (process-wide, once)
@@ -33,6 +40,8 @@ func TestMain(m *testing.M) {
 		return code
 	})
 }
+
+var baseLevel zapcore.Level
 
 func known(id string) bool {
 	for _, k := range strings.Split(os.Getenv("VERIF_KNOWN"), ",") {
